@@ -28,6 +28,10 @@ def make(rng, sid):
     t = gen_tree.random_tree(rng, p["dirs"], p["name"], p["dsfx"], p["postfixes"], tg, decoys=p["decoys"],
                              names=[b"a.conf", b"b.conf", b"10-a.conf", b"Z.conf", b"nosuffix"], links=False)
     # assign owner/group/link-ness
+    tv0 = trees.TreeView(t)
+    _, drops0 = trees.consulted(tv0, p["dirs"], p["name"], p["dsfx"], p["postfixes"])
+    has_dropins = any(tv0.get(f) and tv0.get(f)[0] == "file" for f in drops0)
+    mains = set(d + b"/" + p["name"] + p["dsfx"] for d in p["dirs"]) if p["name"] else set()
     attrs = {}
     new = []
     store = 0
@@ -39,7 +43,10 @@ def make(rng, sid):
         g = FGID if rng.random() < 0.2 else GID
         link = kind == "link"
         if kind == "file" and rng.random() < 0.2:
-            if rng.random() < 0.35:
+            if path in mains and has_dropins and rng.random() < 0.4:
+                # the main file of a layer is a link whose target is gone (or a directory): still a symbolic link with an owner
+                new.append((path, "link", rng.choice([b"/nonexistent/gone.conf", b"/usr"]), u, g))
+            elif rng.random() < 0.35:
                 # a link to /dev/null (the way a name is switched off) is a symbolic link like any other
                 new.append((path, "link", b"/dev/null", u, g))
             else:
@@ -242,6 +249,9 @@ def oracle(s, lines):
             c = d + b"/" + p["name"] + p["dsfx"]
             if tv.get(c) is not None:
                 order.append(c)
+                if tv.get(c)[0] == "link" and tv.get(c)[1] != b"/dev/null" and tv.get(tv.get(c)[1]) is None:
+                    continue     # a link whose target does not exist: checked like every file, then "no such file" - the next layer is tried
+                # (a link to an existing directory is read as a file without content)
                 break
     order += drops
     code = None
